@@ -58,7 +58,7 @@ FUNC_HEAD = "int g%d(int a, int b, int c, int *p, struct S s, struct S *q)\n{\n 
 FUNC_TAIL = "  return 0;\n}\n"
 
 
-ALL_CTX = ["asg", "if", "ret", "arg"]
+ALL_CTX = ["asg", "if", "ret", "arg", "init"]
 REP_BIN = ["*", "+", "-", "<<", "<", ">", "==", "&", "^", "|", "&&", "||"]
 REP1_BIN = ["*", "-", "<<", "<", "==", "&", "^", "|", "&&", "||"]
 OTHER_FAMS = ["leaf", "pcmp", "un", "inc", "asg", "comma", "cast", "sz", "call", "deref", "sub", "mem", "addr", "padd", "pinc", "pasg", "pcomma"]
@@ -207,11 +207,24 @@ def extract(rec, cases, where, obs):
         last_col = max(cols)
         key = {}
         status = "ok"
+        # "int z = e": the tokenizer splits the declaration into "int z ; z = e ;" and both z (and the inserted ";" and the "=")
+        # carry the same position; of two tokens at one printed column the one that takes part in the AST is the statement's token
+        split_decl = c["toks"][0] == "int"
+        at_col = {}
+        for k in ks:
+            at_col.setdefault(toks[k]["column"], []).append(k)
+        chosen = {}
+        for col, lst in at_col.items():
+            if col in cols:
+                in_ast = [k for k in lst if toks[k]["astParent"] or toks[k]["astOperand1"] or toks[k]["astOperand2"]]
+                chosen[col] = (in_ast or lst)[0] if split_decl else lst[0]
         for k in ks:
             t = toks[k]
             pos = cols.get(t["column"])
-            if pos is not None and pos not in key.values():
+            if pos is not None and chosen.get(t["column"]) == k:
                 key[k] = pos
+            elif pos is not None and split_decl and len(at_col[t["column"]]) > 1:
+                key[k] = 0          # the copy made by the declaration split
             elif t["column"] > last_col:
                 key[k] = 0          # the ")" / ";" / "{ }" that end the statement
             elif t["str"] == "(" and k > 0 and toks[k - 1]["str"] == "sizeof" and key.get(k - 1, 0) > 0:
@@ -434,12 +447,16 @@ def main(tier, seed, replay=None):
     disagreements = []
     not_examined = 0
     reduced_all = {}
+    def second_opinion(lang):
+        reduced = shrink(lang, res[lang]["bad"][:MAX_SHRINK], seed, work)
+        return reduced, clang_confirm(lang, reduced, seed, work)
+    with concurrent.futures.ThreadPoolExecutor(2) as ex:
+        opinions = dict(zip(("c", "cpp"), ex.map(second_opinion, ("c", "cpp"))))
     for lang in ("c", "cpp"):
         bad = res[lang]["bad"]
         not_examined += max(0, len(bad) - MAX_SHRINK)
-        reduced = shrink(lang, bad[:MAX_SHRINK], seed, work)
+        reduced, agrees = opinions[lang]
         reduced_all[lang] = reduced
-        agrees = clang_confirm(lang, reduced, seed, work)
         for b in reduced:
             stmt = " ".join(b["toks"])
             if b["id"] not in agrees:
@@ -454,6 +471,16 @@ def main(tier, seed, replay=None):
             violations.append({"key": "%s:%s" % (lang, canon(b["toks"]).replace(" ", "_")),
                                "what": "[%s] %s : expected edges %s, cppcheck has %s (clang agrees with the spec; %d statements of this run reduce to it, e.g. %s)"
                                        % (lang, stmt, json.dumps(b["expected"]), json.dumps(b["observed"]), b["instances"], b["from_stmt"]), "replay": p})
+    # statements that are not judged (rejected as syntax error / rewritten by the tokenizer before the AST exists) must stay rare:
+    # measured on the pinned tree 0.06 % and 0.2 %; far more means the parser gives up on valid expressions
+    for lang in ("c", "cpp"):
+        for what, limit in (("rejected", 0.005), ("rewritten", 0.01)):
+            if res[lang][what] > limit * res[lang]["cases"]:
+                p = vlib.save_replay(PID, "%s-too-many-%s" % (lang, what), {"lang": lang, "count": res[lang][what], "cases": res[lang]["cases"],
+                                                                             "samples": res[lang][what + "_samples"]})
+                violations.append({"key": "%s:too-many-%s" % (lang, what),
+                                   "what": "[%s] %d of %d valid statements were %s (limit %.1f %%), e.g. %s"
+                                           % (lang, res[lang][what], res[lang]["cases"], what, 100 * limit, res[lang][what + "_samples"][:3]), "replay": p})
     rc, new, known = vlib.verdict(PID, violations)
 
     total = sum(res[l]["cases"] for l in res)
@@ -488,6 +515,9 @@ def main(tier, seed, replay=None):
 def do_replay(path, seed):
     payload = json.load(open(path))
     lang = payload["lang"]
+    if "toks" not in payload:
+        print("rate violation (not a single statement), see %s: %s" % (path, json.dumps(payload)[:1000]))
+        return 1
     work = vlib.mktmp("c07replay")
     case = {"id": 1, "n": 0, "toks": payload["toks"], "t": payload["t"]}
     obs = observe([{"id": 1, "toks": payload["toks"]}], lang)
